@@ -1,9 +1,12 @@
 // C16 driver for async_auto_reset_event: one consumer thread executes `next n` ops (start stream().next(), then drain
 // its scheduler until that next() completed or every other thread has finished), producers call set()/set_done(), a
-// canceller requests stop on a next()'s stop source.  No schedule point is accepted while the event's mutex is held
-// (the v1 set_pop hook is filtered out), so set / set_done / try_reset are atomic, as the mutex makes them.
+// canceller requests stop on a next()'s stop source.  The event's std::mutex is made cooperative (hseam.hpp): schedule
+// points exist right after every lock, after every unlock and inside the inner v1 event while the mutex is held, so
+// the atomicity of set / set_done / try_reset with respect to state_ and the inner event is observed, not assumed.
+// Built with -DNDEBUG (release behaviour: the library's assert()s do not turn a wrong outcome into an abort).
 // modes: guided (TLC behaviours of AutoResetEvent), dfs, random.
 #include "evh.hpp"
+#include "hseam.hpp"
 
 #include <unifex/async_auto_reset_event.hpp>
 #include <unifex/inplace_stop_token.hpp>
@@ -124,7 +127,10 @@ static bool finish(World& w) {
   return clean;
 }
 
-static bool sameSite(const std::string& want, const std::string& got) { return got == "event." + want; }
+static bool sameSite(const std::string& want, const std::string& got) {
+  if (want == "auto.dereg_wait") return got == "spin_wait";
+  return got == "event." + want;
+}
 
 struct Stats {
   long execs = 0, steps = 0, drift = 0, unguided = 0, obsMismatch = 0, units = 0;
@@ -139,8 +145,7 @@ static void runAny(const Scenario& sc, long x, long k, Stats& st, const std::fun
   auto w = std::make_unique<World>(&sc);
   vrt::RunResult rr;
   {
-    // "event.v1.sow" only: the v1 set_pop point lies inside the auto-reset event's mutex
-    vrt::Ctl c; c.accept = {"event.op", "event.auto.", "event.v1.sow", "spin_wait"};
+    vrt::Ctl c; c.accept = {"event.op", "event.auto.", "event.v1.", "event.h.", "spin_wait"};
     for (int t = 1; t <= 3; ++t) c.spawn(t, [&, t] { runProg(*w, w->scn->prog[t]); });
     c.start_all();
     rr = drive(c);
